@@ -356,6 +356,31 @@ PROPS = {
         ],
         "assumptions": [],
     },
+    "C15": {
+        "required_theorems": ["c15_au_total", "c15_hdlc_total", "c15_hdlc_guard", "c15_lfsr_total", "c15_sync_no_panic",
+                              "c15_hand_no_panic"],
+        "runs": [
+            {"sub": "crash", "quick": ["--seed", "{seed}", "--cases", 400, "--burst-len", 5, "--probes", 1],
+             "thorough": ["--seed", "{seed}", "--cases", 20000, "--burst-len", 8, "--probes", 1], "timeout": 40000},
+            {"sub": "hdlc", "quick": ["--seed", "{seed}", "--cases", 400],
+             "thorough": ["--seed", "{seed}", "--cases", 20000], "timeout": 20000},
+        ],
+        "rule": "every catalogue block (41 kinds) with hostile content - float specials (NaNs with payloads, +-inf, max, "
+                "denormal, -0), arbitrary bytes where bits are expected, packets of length 0..300 - under drip-feed schedules: "
+                "a panic or a block that never settles within 20000 calls is a violation; AU streams with every header field "
+                "mutated (magic, data offset 0..60 and random, encoding, bitrate, channels), truncated anywhere, fed in 1..40 "
+                "byte chunks, outcome (samples / waiting / error kind) compared with the Lean decoder; SigMF: random bytes, "
+                "empty file, broken/odd metadata JSON, truncated archives; EXHAUSTIVE: all bursts of length 0..5 (thorough: "
+                "0..8) over {-1,0,1,NaN,inf} through Midpointer and Wpcr; HDLC transmissions incl. corrupted ones. "
+                "distinct = distinct request.",
+        "trusted_base": GLOBAL_TB + [
+            "no-panic theorems exist for the modelled units (AU decoder, HDLC deframer, LFSR, sync family, Skip, Delay, "
+            "RtlSdrDecode); every other unit is exercised on the real code only",
+            "memory safety outside stream windows: safe Rust turns it into a panic, which is what is checked; the two unsafe "
+            "sites (ring mapping C01/C18, AVX dot product under a build flag not used here) are not covered by this check",
+        ],
+        "assumptions": ["known finding int-overflow-panic (probe line)"],
+    },
 }
 
 MANIFEST_TEXT = {
@@ -557,6 +582,18 @@ MANIFEST_TEXT = {
         "note": "Four defects were repaired by fix: commits (AuDecode header not consumed, TcpSource short reads, partial sample "
                 "carried across a repeat in FileSource/SigMFSource).",
         "technique": "Lean 4 proof (byte algebra, induction over segmentations) + differential correspondence + real I/O round trips",
+    },
+    "C15": {
+        "text": "Lean 4 theorems that the explicit panic/None outcomes of the models are unreachable for every input: the AU "
+                "decoder yields samples, 'need more' or an error value for every byte string and its header arithmetic cannot "
+                "underflow; update_state of the HDLC deframer is total on every state and byte, its only length subtraction is "
+                "guarded; the LFSR accepts every byte; a generated work() panics only if the user's per-sample function does; "
+                "Skip/Delay/RtlSdrDecode never panic. All other units that accept external data are run on the real code with "
+                "hostile content (exhaustively for small bursts), where a panic or a block that never settles is a violation.",
+        "design_ref": "DESIGN.md section 2, C15",
+        "note": "Known finding (not repaired): integer AddConst/MultiplyConst/Add panic on overflow. Six crash defects were "
+                "repaired by fix: commits (AuDecode offsets, Midpointer, Wpcr, LFSR asserts, HDLC len-2, TcpSource, Delay).",
+        "technique": "Lean 4 totality proofs for modelled units + hostile-input runs (exhaustive small bursts) on the real code",
     },
 }
 
